@@ -14,9 +14,9 @@ results is C01's `marshal_identity` (values by value, objects of the target's si
 namespace Rpyc.Props.C02
 open Rpyc Rpyc.Calls Rpyc.Forward
 
-/-! ### the model's request table is the source's (generated by AST from netref.py / helpers.py) -/
+/-! ### the model's request table is the source's (generated: observed by running the real methods of netref.py / helpers.py against a recording connection) -/
 
-/-- every request a `BaseNetref` method issues: handler and argument pattern (`$k` = k-th parameter) -/
+/-- every request a `BaseNetref` method issues: handler and argument pattern (`$k` = k-th argument) -/
 theorem base_requests_are_modelled :
     Gen.Netref.baseRequests =
       [("__del__", "asyncreq", "self", "HANDLE_DEL", ["self.____refcount__"]),
